@@ -33,7 +33,7 @@ impl VirtualHandler {
     ) -> std::io::Result<Self> {
         let (exit_sender, exit) = oneshot::channel();
         let (to_handler, service_recv) = mpsc::unbounded_channel();
-        let (service_send, from_handler) = mpsc::channel(1024);
+        let (service_send, from_handler) = mpsc::channel(50);
         let exemptions = Arc::new(RwLock::new(HashMap::new()));
         let node_id = enr.read().node_id();
         let filter_config = FilterConfig {
